@@ -2,6 +2,7 @@ package engine
 
 import (
 	"regexp"
+	"runtime"
 	"strings"
 	"time"
 )
@@ -9,19 +10,37 @@ import (
 var goHeader = regexp.MustCompile(`^goroutine (\d+) \[([^\],]+)`)
 
 // GoroutineState returns id, state and stack of the first goroutine whose
-// stack contains marker.
+// stack contains marker; a marker "gid:N" selects goroutine N.
 func GoroutineState(marker string) (id, state, stack string) {
+	gid := strings.TrimPrefix(marker, "gid:")
 	for i, g := range Goroutines() {
-		if i == 0 || !strings.Contains(g, marker) {
+		if i == 0 {
 			continue
 		}
 		m := goHeader.FindStringSubmatch(g)
 		if m == nil {
 			continue
 		}
+		if gid != marker {
+			if m[1] != gid {
+				continue
+			}
+		} else if !strings.Contains(g, marker) {
+			continue
+		}
 		return m[1], m[2], g
 	}
 	return "", "", ""
+}
+
+// GoID returns the calling goroutine's id.
+func GoID() string {
+	buf := make([]byte, 64)
+	buf = buf[:runtime.Stack(buf, false)]
+	if m := goHeader.FindSubmatch(buf); m != nil {
+		return string(m[1])
+	}
+	return ""
 }
 
 func blockingState(s string) bool {
